@@ -85,7 +85,7 @@ def run(ctx):
     ctx.assumptions += ['cells whose best two correlations differ by < 1e-9 at a visited node are '
                         'counted as undetermined and not asserted (rounding may order them either way)']
     if ctx.only in (None, 'mc'):
-        dims = (3, 3, 3, 3, 2, 2, 1) if quick else (3, 4, 4, 4, 3, 2, 1)
+        dims = (3, 3, 3, 3, 2, 2, 1) if quick else (3, 4, 3, 3, 2, 2, 1)
         res = run_tlc('MapRun_MC', cfg_text=mc_cfg(*dims), timeout=7200)
         ctx.add_tlc('MapRun_MC', res)
         if not res.ok:
